@@ -111,14 +111,19 @@ func vStoreCommitApply(L, maxQ int) {
 	vReach("end")
 }
 
-//verif:check C07 stubs=env,valuefile,abslog reach=lost,closed,end desc="leader.release fails every still-queued task exactly once (NotLeaderError{Lost:true}, or ErrServerClosed when shutting down), and a task already completed is not completed again" bounds="leader with 2 voters, batch of up to 3 tasks, symbolic commit progress before release"
-func VH_C07_release() {
-	r, l, _ := vMkLeader(2, 2, true)
+//verif:check C07 stubs=env,valuefile,abslog reach=lost,closed,end desc="leader.release fails every still-queued task exactly once (NotLeaderError{Lost:true}, or ErrServerClosed when shutting down), and a task already completed is not completed again" bounds="leader with 2 voters, log of 1 entry, batch of up to 2 tasks, symbolic commit progress before release; every way leadership can end"
+func VH_C07_release() { vRelease(1, 2) }
+
+//verif:check C07 tier=thorough stubs=env,valuefile,abslog reach=lost,closed,end desc="as VH_C07_release, deeper" bounds="log of 2 entries, batch of up to 3 tasks"
+func VH_C07_release_deep() { vRelease(2, 3) }
+
+func vRelease(L, maxQ int) {
+	r, l, _ := vMkLeader(2, L, true)
 	cfg := r.configs.Latest
 	vAssume(cfg.Nodes[1].Voter && cfg.Nodes[2].Voter)
 	r.configs.Committed = cfg
 	vAssume(cfg.Index <= r.commitIndex)
-	Q := 1 + vChoice(3)
+	Q := 1 + vChoice(maxQ)
 	var subs []*newEntry
 	var head, tail *newEntry
 	for i := 0; i < Q; i++ {
